@@ -491,8 +491,12 @@ func c02R6(p *core.Prog, r *core.Report) {
 // its owner cancelled it. Structurally: every assignment of a queue entry to
 // the candidate is dominated by the not-answered side of a test of that
 // entry's timeouted flag.
-func c02R7(p *core.Prog, r *core.Report) {
-	const rule = "C02/R7"
+func c02R7(p *core.Prog, r *core.Report) { cancelSelectsLive(p, r, "C02/R7") }
+
+// cancelSelectsLive is shared by C02/R7 and C03/R10: the same dominance
+// condition is necessary for both (C02: an answered entry must not shadow the
+// live request; C03: an answered entry must not be answered a second time).
+func cancelSelectsLive(p *core.Prog, r *core.Report, rule string) {
 	r.Rule(rule, "cancelWaitLock selects a queue entry as the waiter to cancel only on the not-answered side of a test of that entry's timeouted flag", 1)
 	fn := mustFunc(p, r, "server.(*LockDB).cancelWaitLock")
 	if fn == nil {
